@@ -415,6 +415,50 @@ def generate_horizon():
     return "\n".join(lines) + "\n"
 
 
+ONCTOR_FILE = "rtamt/semantics/stl/discrete_time/online/ast_visitor.py"
+OUT_ONCTOR = os.path.join(os.path.dirname(HERE), "lean", "Rtamt", "Py", "GeneratedOnCtor.lean")
+
+
+def generate_onctor():
+    """The construction visitor of the discrete-time online monitor: per visitX, the operation class that is stored in
+    online_operator_dict[node.name] and its constructor arguments - or that the method only raises RTAMTException."""
+    tree = ast.parse(open(os.path.join(REPO, ONCTOR_FILE)).read())
+    cls = [n for n in tree.body if isinstance(n, ast.ClassDef)][0]
+    last = {}
+    for m in cls.body:
+        if isinstance(m, ast.FunctionDef) and m.name.startswith("visit") and m.name != "visit":
+            last[m.name] = m
+    rows = []
+    for name, m in last.items():
+        body = [st for st in m.body if not (isinstance(st, ast.Expr) and isinstance(st.value, ast.Constant))]
+        row = None
+        if len(body) == 1 and isinstance(body[0], ast.Raise) and isinstance(body[0].exc, ast.Call) \
+                and src(body[0].exc.func) == "RTAMTException":
+            row = ".raises"
+        else:
+            ok = len(body) >= 2 and src(body[0]).replace(" ", "") == "self.visitChildren(node,*args,**kwargs)"
+            rest = body[1:]
+            iv = False
+            if ok and rest and src(rest[0]).replace(" ", "") == "begin,end=self.time_unit_transformer(node)":
+                iv = True
+                rest = rest[1:]
+            if ok and len(rest) == 1 and isinstance(rest[0], ast.Assign) and len(rest[0].targets) == 1 \
+                    and src(rest[0].targets[0]) == "self.online_operator_dict[node.name]" and isinstance(rest[0].value, ast.Call) \
+                    and isinstance(rest[0].value.func, ast.Name) and not rest[0].value.keywords:
+                amap = {"node.operator": ".operator", "begin": ".begin_", "end": ".end_", "node.val": ".val"}
+                args = [amap.get(src(a)) for a in rest[0].value.args]
+                if all(a is not None for a in args) and (iv or not any(a in (".begin_", ".end_") for a in args)):
+                    row = "(.builds %s [%s])" % (q(rest[0].value.func.id), ", ".join(args))
+        if row is None:
+            row = "(.unsupported %s)" % q(" ; ".join(src(st) for st in m.body)[:200])
+        rows.append("(%s, %s)" % (q(name), row))
+    lines = ["/- GENERATED by harness/py2lean.py from %s of /repo on every run - do not edit. -/" % ONCTOR_FILE,
+             "import Rtamt.Py.OnCtor", "", "namespace Rtamt.Py.Gen.OnCtor", "open Rtamt Rtamt.Py", "",
+             "/-- what `visitX` of the construction visitor does after visiting the children -/",
+             "def table : List (String × CtorAction) :=", "  [" + ",\n   ".join(rows) + "]", "", "end Rtamt.Py.Gen.OnCtor"]
+    return "\n".join(lines) + "\n"
+
+
 PAST_FILE = "rtamt/pastifier/stl/pastifier.py"
 OUT_PAST = os.path.join(os.path.dirname(HERE), "lean", "Rtamt", "Py", "GeneratedPast.lean")
 
@@ -574,6 +618,7 @@ def main():
     write_if_changed(OUT_UNITS, generate_units())
     write_if_changed(OUT_HOR, generate_horizon())
     write_if_changed(OUT_PAST, generate_past())
+    write_if_changed(OUT_ONCTOR, generate_onctor())
     txt = generate()
     old = open(OUT).read() if os.path.exists(OUT) else None
     if txt != old:
